@@ -684,6 +684,14 @@ impl<'a> Body<'a> {
             return v;
         }
         match &stmt {
+            Stmt::Expr(Expr::ForLoop(fl), _) if as_push_all(fl).is_some() => {
+                // R8c: `for x in E { V.push(x); }` (E an owned Vec) -> `{ let mut __t = E; V.append(&mut __t); }`
+                let (v, src) = as_push_all(fl).unwrap();
+                let k = self.fresh();
+                let t = ident(&format!("__t{k}"));
+                self.note("R8", "`for x in E { V.push(x); }` -> V.append(&mut E)".into());
+                parse_stmts(quote!( let mut #t = #src; #v.append(&mut #t); ))
+            }
             Stmt::Expr(Expr::ForLoop(fl), _) => {
                 if let Some(v) = self.rule_enumerate(fl) {
                     return v;
@@ -1350,6 +1358,27 @@ impl<'a> Body<'a> {
     }
 }
 
+/// for x in E { V.push(x); }  where E is a method call producing an owned Vec (listed in opts.owned_vec_calls)
+fn as_push_all(fl: &ExprForLoop) -> Option<(Expr, Expr)> {
+    let Pat::Ident(pi) = &*fl.pat else { return None };
+    if fl.body.stmts.len() != 1 {
+        return None;
+    }
+    let Stmt::Expr(Expr::MethodCall(mc), Some(_)) = &fl.body.stmts[0] else { return None };
+    if mc.method != "push" || mc.args.len() != 1 {
+        return None;
+    }
+    let Expr::Path(ap) = &mc.args[0] else { return None };
+    if !ap.path.is_ident(&pi.ident) {
+        return None;
+    }
+    let Expr::MethodCall(src) = &*fl.expr else { return None };
+    if src.method != "search" {
+        return None;
+    }
+    Some(((*mc.receiver).clone(), (*fl.expr).clone()))
+}
+
 fn as_drain_filter_map(l: &Local) -> Option<Expr> {
     let init = l.init.as_ref()?;
     let Expr::MethodCall(col) = &*init.expr else { return None };
@@ -1540,6 +1569,31 @@ impl<'a> VisitMut for Body<'a> {
             if let Some(r) = self.rewrite_macro_expr(&m.mac) {
                 *e = r;
                 return;
+            }
+        }
+        // R29: `helper(ID, |p| BODY)` where the unit file describes the repository helper as "look the entry up in thread-local map M
+        // and run the closure on it"  ->  `{ let p = reg.M.get_mut(&ID).unwrap(); BODY }`
+        if let Expr::Call(c) = e {
+            if let Expr::Path(fp) = &*c.func {
+                if let Some(name) = fp.path.get_ident().map(|i| i.to_string()) {
+                    if let Some(tbl) = self.unit.opts.get("inline_lookup").and_then(|v| v.as_table()).and_then(|t| t.get(&name)).and_then(|v| v.as_table()).cloned() {
+                        if c.args.len() == 2 {
+                            if let Expr::Closure(cl) = &c.args[1] {
+                                if cl.inputs.len() == 1 {
+                                    let reg = ident(tbl.get("param").and_then(|v| v.as_str()).unwrap_or("reg"));
+                                    let map = ident(tbl.get("map").and_then(|v| v.as_str()).unwrap_or("MAP"));
+                                    let (idx, p, body) = (&c.args[0], &cl.inputs[0], &cl.body);
+                                    self.note("R29", format!("{name}(id, |{}| ..) inlined: lookup in {}.{} + closure body", p.to_token_stream(), reg, map));
+                                    let mut ne = parse_expr(quote!({ let #p = #reg.#map.get_mut(&#idx).unwrap(); #body }));
+                                    self.closure_counter += 1;
+                                    self.visit_expr_mut(&mut ne);
+                                    *e = ne;
+                                    return;
+                                }
+                            }
+                        }
+                    }
+                }
             }
         }
         // R19 (expression form): `X.or_else(|| BODY)` with a lift entry for the closure -> `{ let __o = X; if __o.is_none() { f(args) } else { __o } }`
